@@ -56,7 +56,7 @@ func (o rrOutbound) TCP(reqAddr string) (net.Conn, error) {
 	return a, nil
 }
 func (o rrOutbound) UDP(string) (server.UDPConn, error) { return nil, errors.New("no udp") }
-func (o rrOutbound) CheckUDP(string) error                { return nil }
+func (o rrOutbound) CheckUDP(string) error              { return nil }
 
 type rrAuth struct{}
 
@@ -101,7 +101,7 @@ func (t rrTraffic) LogTraffic(id string, tx, rx uint64) bool {
 	}
 	return true
 }
-func (t rrTraffic) LogOnlineState(string, bool)                        {}
+func (t rrTraffic) LogOnlineState(string, bool)                      {}
 func (t rrTraffic) TraceStream(server.HyStream, *server.StreamStats) {}
 func (t rrTraffic) UntraceStream(server.HyStream)                    {}
 
@@ -258,7 +258,7 @@ func loadFakeRelayObs(wait time.Duration) (map[string][]string, error) {
 // TestVerifConformRelay compares hysteria's end-to-end relay over the real QUIC stack with the
 // same histories over the fake (observations of unit relay-fake).
 func TestVerifConformRelay(t *testing.T) {
-	evidence.Main(t, "CONFORM", evidence.Seq{Run: func(sh *evidence.Shard) {
+	evidence.Main(t, "CONFORM", evidence.Seq{Replay: replayRelay, Run: func(sh *evidence.Shard) {
 		env := sh.Env()
 		p := sh.Part("relay-conformance", "enum")
 		hs := RelayHistories()
@@ -309,4 +309,30 @@ func TestVerifConformRelay(t *testing.T) {
 			}
 		}
 	}})
+}
+
+// replayRelay re-runs one history on the real stack and compares it with the fake unit's file
+// (which must exist: run unit relay-fake first).
+func replayRelay(part string, raw json.RawMessage) (handled, reproduced bool, detail string) {
+	if part != "relay-conformance" {
+		return false, false, ""
+	}
+	var r struct {
+		History string `json:"history"`
+	}
+	if err := json.Unmarshal(raw, &r); err != nil {
+		return true, false, "bad replay data: " + err.Error()
+	}
+	fake, err := loadFakeRelayObs(time.Second)
+	if err != nil {
+		return true, false, err.Error()
+	}
+	for _, h := range RelayHistories() {
+		if h.Name == r.History {
+			rr := runRealRelay(h)
+			v := verdict{Script: h.Name, Fake: fake[h.Name], Real: rr.Log, Status: rr.Status}
+			return true, rr.Status == "ok" && !equalLogs(v.Fake, v.Real), diffDetail(v)
+		}
+	}
+	return true, false, "unknown history " + r.History
 }
